@@ -20,6 +20,7 @@ import (
 	"os"
 	"os/exec"
 	"path/filepath"
+	"runtime"
 	"runtime/pprof"
 	"sort"
 	"strings"
@@ -40,15 +41,37 @@ type sched struct {
 	grant  []chan struct{}
 }
 
+// threadRepo wraps the one repository behind the ONE router all client requests of a case go through
+// (so that anything the routes share - caches, package state - is shared as in the server).  The
+// goroutine serving a scheduled request registers its id; calls from other goroutines (setup and
+// follow-up requests) pass straight through.
 type threadRepo struct {
 	inner verifhooks.Repo
-	tid   int
 	sc    *sched
+	tids  sync.Map // goroutine id -> thread index
+}
+
+func goid() uint64 {
+	var buf [64]byte
+	n := runtime.Stack(buf[:], false)
+	// "goroutine 123 [running]:"
+	f := strings.Fields(string(buf[:n]))
+	if len(f) < 2 {
+		return 0
+	}
+	var id uint64
+	fmt.Sscan(f[1], &id)
+	return id
 }
 
 func (t *threadRepo) pause(op string) {
-	t.sc.events <- schedEvent{t.tid, "arrive:" + op}
-	<-t.sc.grant[t.tid]
+	v, ok := t.tids.Load(goid())
+	if !ok {
+		return
+	}
+	tid := v.(int)
+	t.sc.events <- schedEvent{tid, "arrive:" + op}
+	<-t.sc.grant[tid]
 }
 
 // every repository call is bracketed by two pause points: before it (the access is the atomic action
@@ -79,6 +102,8 @@ func (t *threadRepo) DeleteFile(id string) error {
 }
 
 type concRun struct {
+	router   http.Handler
+	trepo    *threadRepo
 	env      *apiEnv
 	reqs     []*apiReq
 	sc       *sched
@@ -101,6 +126,8 @@ func newConcRun(env *apiEnv, reqs []*apiReq) *concRun {
 		c.sc.grant[i] = make(chan struct{})
 		c.launched[i], c.finished[i] = -1, -1
 	}
+	c.trepo = &threadRepo{inner: env.repo, sc: c.sc}
+	c.router = verifhooks.NewRouter(c.trepo)
 	return c
 }
 
@@ -195,12 +222,12 @@ func (c *concRun) launch(i int) {
 	c.step++
 	c.status[i] = "running"
 	c.launched[i] = c.step
-	tr := &threadRepo{inner: c.env.repo, tid: i, sc: c.sc}
-	h := verifhooks.NewRouter(tr)
+	h := c.router
 	req, _ := c.reqs[i].build("http://verif.local")
 	rec := httptest.NewRecorder()
 	c.recs[i] = rec
 	go pprof.Do(context.Background(), pprof.Labels("verif-tid", fmt.Sprint(i)), func(context.Context) {
+		c.trepo.tids.Store(goid(), i)
 		defer func() {
 			if p := recover(); p != nil {
 				rec.Code = 599
@@ -372,28 +399,41 @@ func runC12(cfg *config) *Report {
 		cases = genConcCases(r, pools, cfg.tier)
 	}
 	type pending struct {
-		cc       concCase
-		run      *concRun
-		init     string
-		final    string
-		lines    []string
-		stuck    bool
-		modelIdx int
+		cc         concCase
+		run        *concRun
+		init       string
+		final      string
+		lines      []string
+		stuck      bool
+		modelIdx   int
+		follow     []*apiReq
+		followResp []apiResp
+		followIdx  int
 	}
 	var ps []*pending
 	var lines []string
 	execOne := func(cc concCase) (branching []int) {
 		env := &apiEnv{repo: verifhooks.NewInMemoryRepo(), reg: reg}
-		// sequential setup through an unscheduled router
-		h := verifhooks.NewRouter(env.repo)
+		p := &pending{cc: cc}
+		p.run = newConcRun(env, cc.Reqs)
+		// sequential setup through the same router (calls from unregistered goroutines are not scheduled)
 		for _, q := range cc.Setup {
 			req, _ := q.build("http://verif.local")
-			h.ServeHTTP(httptest.NewRecorder(), req)
+			p.run.router.ServeHTTP(httptest.NewRecorder(), req)
 		}
-		p := &pending{cc: cc, init: env.storeDump()}
-		p.run = newConcRun(env, cc.Reqs)
+		p.init = env.storeDump()
 		branching, p.stuck = p.run.runSchedule(cc.Choices, cc.Actions)
 		p.final = env.storeDump()
+		// follow-up reads after everybody has answered: what later clients see must be the final store
+		if !p.stuck {
+			for _, q := range followUps(cc) {
+				req, _ := q.build("http://verif.local")
+				rec := httptest.NewRecorder()
+				p.run.router.ServeHTTP(rec, req)
+				p.follow = append(p.follow, q)
+				p.followResp = append(p.followResp, recToResp(rec))
+			}
+		}
 		for i, q := range cc.Reqs {
 			p.lines = append(p.lines, env.modelLine(q, recToResp(p.run.recs[i])))
 		}
@@ -410,6 +450,18 @@ func runC12(cfg *config) *Report {
 				ls = append(ls, p.lines[k])
 			}
 			lines = append(lines, fmt.Sprintf("apifrom\t%s\t%s", initArg, strings.Join(ls, "|")))
+		}
+		if len(p.follow) > 0 {
+			var fl []string
+			for i, q := range p.follow {
+				fl = append(fl, env.modelLine(q, p.followResp[i]))
+			}
+			fin := p.final
+			if fin == "" {
+				fin = "-"
+			}
+			p.followIdx = len(lines)
+			lines = append(lines, fmt.Sprintf("apifrom\t%s\t%s", fin, strings.Join(fl, "|")))
 		}
 		ps = append(ps, p)
 		return branching
@@ -546,6 +598,25 @@ func runC12(cfg *config) *Report {
 			rep.CorrDisagree++
 			rep.violate(Violation{Key: "C12:corr:" + tag, What: "thread model and real handlers disagree under the same schedule, although the real outcome is linearizable: " + disagree, Replay: replay, NoInput: true})
 		}
+		if len(p.follow) > 0 {
+			ents := strings.Split(outs[p.followIdx], "|")
+			for i, q := range p.follow {
+				if i >= len(ents) {
+					break
+				}
+				mm := strings.SplitN(ents[i], "#", 2)
+				e := &apiEnv{reg: reg}
+				if d := e.compareResp(mm[0], q, p.followResp[i]); d != "" {
+					rp2 := map[string]any{}
+					for k, v := range replay {
+						rp2[k] = v
+					}
+					rp2["follow_up"] = q
+					rep.violate(Violation{Key: "C12:later-read-stale:" + q.Kind + ":" + tag, What: "after all concurrent requests had been answered, a later " + q.Kind + " does not return what the store holds (" + d + ")", Replay: rp2})
+					break
+				}
+			}
+		}
 		if rep.Evaluations%53 == 0 {
 			rep.sample(map[string]any{"requests": p.lines, "real_actions": p.run.actions, "model_events": p.run.events})
 		}
@@ -662,6 +733,19 @@ func genConcCases(r rng, pools *apiPools, tier string) []concCase {
 		cases = append(cases, concCase{Setup: setup, Reqs: rq, Choices: ch})
 	}
 	return cases
+}
+
+// followUps: reads of the files the case touched, issued once after the concurrent phase
+func followUps(cc concCase) []*apiReq {
+	ids := map[string]bool{}
+	var out []*apiReq
+	for _, q := range cc.Reqs {
+		if q.ID != "" && !ids[q.ID] {
+			ids[q.ID] = true
+			out = append(out, &apiReq{Kind: "cont", ID: q.ID}, &apiReq{Kind: "get", ID: q.ID}, &apiReq{Kind: "cont", ID: q.ID})
+		}
+	}
+	return append(out, &apiReq{Kind: "list"})
 }
 
 func isWriter(n string) bool {
